@@ -214,6 +214,10 @@ theorem critical_steps_locked :
 theorem lock_free_reads_atomic :
     Tromp.Gen.lockFreeReads.all (fun r => ["atomic<bool>", "atomic<size_t>", "atomic<unsigned>"].contains r.2.2.2) = true := by decide
 
+/-- **the lock is held to the end of its scope**: no function that takes the global lock unlocks, releases, swaps or moves it
+    (`earlyUnlocks`, regenerated from the source, is empty) — so "lexically inside the scope" above means "under the lock". -/
+theorem no_early_unlock : Tromp.Gen.earlyUnlocks = [] := by decide
+
 /-- … and there are such queries (the destruction requirement's), so the statement is not about an empty table. -/
 theorem lock_free_reads_nonempty :
     Tromp.Gen.lockFreeReads.map (fun r => (r.1, r.2.2.1)) =
